@@ -99,6 +99,7 @@ func runC09(w *core.World, r *core.Report) {
 	r.Rule("R4", "CacheUseSize stores are 0 or self +/- len(frame value); frame list grows only by append(fresh map), shrinks only by shorter prefix")
 	r.Rule("R5", "every write before an error return of Add/Update is restored on the way to it")
 	r.Rule("R6", "Pop deletes Sizes[k] for every key of the removed frame")
+	r.Rule("R10", "the engine sets a cache capacity only from a positive Config.CacheSize")
 	r.Rule("R9", "the persister empties the session's cache object but never replaces it (the object carries the configured capacity)")
 	r.Rule("R8", "a size limit is deleted only together with its symbol: the key of every delete(Sizes, k) ranges over a frame that is being dropped")
 	r.Rule("R7", "the limit handed to Add by the LOAD handler is the instruction's size operand, converted without loss")
@@ -135,6 +136,7 @@ func runC09(w *core.World, r *core.Report) {
 	// R8
 	checkSizesDeletedWithFrame(w, r, "R8")
 	checkPersisterKeepsMemory(w, r, "R9")
+	checkCapacityWiring(w, r, "R10")
 
 	// R7: the per-symbol limit the program declares is the limit the cache enforces - at every
 	// place in package vm that adds a symbol
@@ -432,6 +434,46 @@ func classifyUseSizeStore(fn *ssa.Function, st *ssa.Store, oracles map[*ssa.Func
 	}
 	if p, ok := v.(*ssa.Parameter); ok && fn.Name() == "WithCacheSize" {
 		_ = p
+	}
+	// a recount in a local: an accumulator that starts at 0 and only ever grows by the length of a
+	// frame value (sum over the kept frame), stored once
+	if acc, ok := v.(*ssa.Phi); ok {
+		okAcc, n := true, 0
+		for _, e := range acc.Edges {
+			if c, isC := core.ConstInt(e); isC {
+				if c != 0 {
+					okAcc = false
+				}
+				continue
+			}
+			ab, isB := e.(*ssa.BinOp)
+			if !isB || ab.Op != token.ADD {
+				okAcc = false
+				continue
+			}
+			other := ab.Y
+			if ab.X != ssa.Value(acc) {
+				if ab.Y == ssa.Value(acc) {
+					other = ab.X
+				} else {
+					okAcc = false
+					continue
+				}
+			}
+			args := lenArgs(other, oracles)
+			if len(args) == 0 {
+				okAcc = false
+			}
+			for _, a := range args {
+				if !isFrameValue(fn, a) {
+					okAcc = false
+				}
+			}
+			n++
+		}
+		if okAcc && n > 0 {
+			return "recount: sum of len(frame value) from 0", true
+		}
 	}
 	bo, ok := v.(*ssa.BinOp)
 	if !ok || (bo.Op != token.ADD && bo.Op != token.SUB) {
@@ -738,9 +780,9 @@ func checkCacheLimits(w *core.World, r *core.Report, oracles map[*ssa.Function]b
 				if refs := v.Referrers(); refs != nil {
 					for _, u := range *refs {
 						if bo, ok := u.(*ssa.BinOp); ok {
-							if _, op, k, ok := core.CmpConst(bo); ok && k == 0 && (op == token.EQL || op == token.NEQ) {
+							if _, op, k, ok := core.CmpConst(bo); ok && k == 0 && (op == token.EQL || op == token.NEQ || op == token.LEQ || op == token.GTR) {
 								ncap++
-								capCut = append(capCut, core.EdgesWhere(bo, op == token.NEQ)...)
+								capCut = append(capCut, core.EdgesWhere(bo, op == token.NEQ || op == token.GTR)...)
 							}
 						}
 					}
